@@ -16,9 +16,23 @@ Expected(r) ==
   CASE r.kind \in {"batches", "ibc_queue"} -> PageIds(Store(r), r.start_after, r.limit, r.status)
     [] r.kind = "by_ids" -> ByIds(Store(r), r.ids)
     [] r.kind = "chain" -> AllMatchingIds(Store(r), r.status)
+    [] r.kind = "reply_queue" -> PageIds(Store(r), r.start_after, r.limit, r.status)
+    [] r.kind = "batch" -> BatchById(Store(r), r.ids[1])
+    [] r.kind = "pending" -> PendingIds(Store(r))
     [] r.kind = "requests" -> << >>
+    [] r.kind \in {"all_requests", "all_requests_v2"} -> << >>
+AllReqs(r) == {[b |-> q[1], rank |-> q[2], amt |-> q[3]] : q \in ToSet(r.reqs)}
+\* queries the listed property C17 names; the others (Batch, PendingBatch, IbcReplyQueue, the deprecated AllUnstakeRequests*)
+\* are specified and checked all the same, reported outside the property
+Listed(r) == r.kind \in {"batches", "ibc_queue", "by_ids", "chain", "requests"}
 Ok(r) ==
-  IF r.kind = "requests"
+  IF r.kind \in {"all_requests", "all_requests_v2"}
+  THEN LET e == AllRequests(AllReqs(r), r.start_after, r.limit)
+       IN /\ Len(r.resp) = Len(e)
+          /\ \A i \in DOMAIN e : r.resp[i] = <<e[i].b, e[i].rank, e[i].amt>>
+  ELSE IF r.kind = "pending"
+  THEN r.resp = Expected(r) /\ Len(r.resp) = 1 /\ r.detail_ok
+  ELSE IF r.kind = "requests"
   THEN /\ ToSet(r.resp) = {<<q[1], q[3]>> : q \in {x \in ToSet(r.reqs) : x[2] = r.user}}
        /\ Len(r.resp) = Cardinality(ToSet(r.resp))
        /\ \A i \in 1..(Len(r.resp) - 1) : r.resp[i][1] < r.resp[i + 1][1]
@@ -31,7 +45,7 @@ TNext == /\ l <= N
          /\ LET r == Rec[l] IN
               /\ nfind' = nfind + (IF Ok(r) THEN 0 ELSE 1)
               /\ IF Ok(r) THEN TRUE
-                 ELSE PrintT("FINDING " \o ToJson([i |-> l, fs |-> {[l |-> l, kind |-> "query", m |-> r.kind, atom |-> "response differs from Queries.tla", props |-> {"C17"}]}]))
+                 ELSE PrintT("FINDING " \o ToJson([i |-> l, fs |-> {[l |-> l, kind |-> "query", m |-> r.kind, atom |-> "response differs from Queries.tla", props |-> IF Listed(r) THEN {"C17"} ELSE {}]}]))
          /\ l' = l + 1
 TSpec == TInit /\ [][TNext]_<<l, nfind>>
 Accepted == IF TLCGet("stats").diameter - 1 = N THEN PrintT("TRACE-CONSUMED " \o ToString(N))
